@@ -37,7 +37,7 @@ def slack(world):
 
 def make_robot(world, device=None):
     s, e = slack(world)
-    return Robot(device or world["device"], world["labware"], per_record_slack=s, eps=e)
+    return Robot(device or world["device"], world["labware"], per_record_slack=s, eps=e, track_comp=False)
 
 
 def check_step_size(record, max_volume, robot):
